@@ -5,6 +5,9 @@ import Model.Cx
 import Mathlib.Analysis.SpecialFunctions.Pow.Real
 import Mathlib.Analysis.SpecialFunctions.Trigonometric.Basic
 import Mathlib.Analysis.SpecialFunctions.Log.Basic
+import Mathlib.Tactic.Ring
+import Mathlib.Tactic.NormNum
+import Mathlib.Tactic.Positivity
 namespace Gep.R
 
 abbrev K := ℝ
@@ -17,5 +20,85 @@ noncomputable def klog (x : K) : K := Real.log x
 noncomputable def kpow (x y : K) : K := Real.rpow x y
 noncomputable def kabs (x : K) : K := |x|
 noncomputable def kpi : K := Real.pi
+
+/-! ### half-integer powers
+
+The Python source spells x^(n+1/2) in several ways (`sqrt(x**3)`, `x**1.5`, `x**(5/2.)`, `pow(x, 2.5)`, `sqrt(x)**5`,
+`x**2*sqrt(x)`); the translator keeps the spelling (`ksqrt (x ^ 3)`, `kpow x 1.5`, `ksqrt x ^ 5`, …).  A bridging lemma
+whose hand-written side contains such a power adds the lemmas below to its `bridge_simp [...]` list: they rewrite every
+spelling to the one form `x ^ n * ksqrt x`, on both sides.  They need no hypothesis: for x < 0 both sides vanish in ℝ
+(`Real.sqrt x = 0`, and `Real.rpow x y = exp (y log x) * cos (y π)` with cos ((n+1/2) π) = 0). -/
+
+theorem ksqrt_pow3 (x : K) : ksqrt (x ^ 3) = x * ksqrt x := by
+  unfold ksqrt
+  rcases le_or_gt 0 x with h | h
+  · have : x ^ 3 = x ^ 2 * x := by ring
+    rw [this, Real.sqrt_mul (sq_nonneg x), Real.sqrt_sq h]
+  · have h3 : x ^ 3 ≤ 0 := by
+      have : x ^ 3 = x ^ 2 * x := by ring
+      rw [this]; exact mul_nonpos_of_nonneg_of_nonpos (sq_nonneg x) h.le
+    rw [Real.sqrt_eq_zero_of_nonpos h3, Real.sqrt_eq_zero_of_nonpos h.le, mul_zero]
+
+theorem ksqrt_pow5 (x : K) : ksqrt (x ^ 5) = x ^ 2 * ksqrt x := by
+  unfold ksqrt
+  rcases le_or_gt 0 x with h | h
+  · have : x ^ 5 = (x ^ 2) ^ 2 * x := by ring
+    rw [this, Real.sqrt_mul (sq_nonneg _), Real.sqrt_sq (sq_nonneg x)]
+  · have h3 : x ^ 5 ≤ 0 := by
+      have : x ^ 5 = (x ^ 2) ^ 2 * x := by ring
+      rw [this]; exact mul_nonpos_of_nonneg_of_nonpos (sq_nonneg _) h.le
+    rw [Real.sqrt_eq_zero_of_nonpos h3, Real.sqrt_eq_zero_of_nonpos h.le, mul_zero]
+
+theorem ksqrt_npow3 (x : K) : ksqrt x ^ 3 = x * ksqrt x := by
+  unfold ksqrt
+  rcases le_or_gt 0 x with h | h
+  · have : Real.sqrt x ^ 3 = Real.sqrt x ^ 2 * Real.sqrt x := by ring
+    rw [this, Real.sq_sqrt h]
+  · rw [Real.sqrt_eq_zero_of_nonpos h.le]; ring
+
+theorem ksqrt_npow5 (x : K) : ksqrt x ^ 5 = x ^ 2 * ksqrt x := by
+  unfold ksqrt
+  rcases le_or_gt 0 x with h | h
+  · have : Real.sqrt x ^ 5 = (Real.sqrt x ^ 2) ^ 2 * Real.sqrt x := by ring
+    rw [this, Real.sq_sqrt h]
+  · rw [Real.sqrt_eq_zero_of_nonpos h.le]; ring
+
+theorem kpow_half (x : K) : kpow x (0.5 : K) = ksqrt x := by
+  unfold kpow ksqrt
+  have e : (0.5 : ℝ) = 1 / 2 := by norm_num
+  rw [e, Real.sqrt_eq_rpow]; rfl
+
+/-- `x ** (n + 1/2)` for x < 0 is 0 in ℝ (Real.rpow: exp(y log x) cos(y π), and cos((n+1/2)π) = 0) -/
+theorem rpow_half_odd_neg {x : ℝ} (h : x < 0) (n : ℕ) : Real.rpow x ((n : ℝ) + 1 / 2) = 0 := by
+  show x ^ ((n : ℝ) + 1 / 2) = 0
+  rw [Real.rpow_def_of_neg h]
+  have : Real.cos (((n : ℝ) + 1 / 2) * Real.pi) = 0 := by
+    induction n with
+    | zero =>
+      have : (((0 : ℕ) : ℝ) + 1 / 2) * Real.pi = Real.pi / 2 := by push_cast; ring
+      rw [this, Real.cos_pi_div_two]
+    | succ k ih =>
+      have : (((k + 1 : ℕ) : ℝ) + 1 / 2) * Real.pi = ((k : ℝ) + 1 / 2) * Real.pi + Real.pi := by push_cast; ring
+      rw [this, Real.cos_add_pi, ih, neg_zero]
+  rw [this, mul_zero]
+
+theorem rpow_half_odd (x : ℝ) (n : ℕ) : Real.rpow x ((n : ℝ) + 1 / 2) = x ^ n * Real.sqrt x := by
+  rcases le_or_gt 0 x with h | h
+  · show x ^ ((n : ℝ) + 1 / 2) = _
+    rcases h.eq_or_lt with h0 | hpos
+    · subst h0
+      rw [Real.zero_rpow (by positivity), Real.sqrt_zero, mul_zero]
+    · rw [Real.rpow_add hpos, Real.rpow_natCast, Real.sqrt_eq_rpow]
+  · rw [rpow_half_odd_neg h, Real.sqrt_eq_zero_of_nonpos h.le, mul_zero]
+
+theorem kpow_1p5 (x : K) : kpow x (1.5 : K) = x * ksqrt x := by
+  unfold kpow ksqrt
+  have e : (1.5 : ℝ) = ((1 : ℕ) : ℝ) + 1 / 2 := by norm_num
+  rw [e, rpow_half_odd, pow_one]
+
+theorem kpow_2p5 (x : K) : kpow x (2.5 : K) = x ^ 2 * ksqrt x := by
+  unfold kpow ksqrt
+  have e : (2.5 : ℝ) = ((2 : ℕ) : ℝ) + 1 / 2 := by norm_num
+  rw [e, rpow_half_odd]
 
 end Gep.R
